@@ -144,10 +144,14 @@ def run_history(res, exe, rng, first, matrix_case=None):
                     op = ("write", rng.randrange(ne), rng.choice(["same", "other-active", "new", "zero-same", "zero-other", "zero-new"]))
                 elif x < 0.81 and x >= 0.80:
                     op = ("nohb", rng.choice(pool_nodes + [0]))
-                elif x < 0.82:
+                elif x < 0.815:
                     op = ("hbcb", rng.choice(pool_nodes), rng.choice([5, 127, 4]))
+                elif x < 0.82:
+                    op = (rng.choice(["nmtreset", "reinit"]),)
                 elif x < 0.84:
                     op = ("pending", rng.choice(["hb", "hb", "zero", "retarget", "none", "zero-other"]))
+                elif x < 0.855:
+                    op = ("evcb", rng.choice(["zero", "retime", "reset"]))
                 elif x < 0.88:
                     op = ("events", rng.choice(pool_nodes))
                 elif x < 0.94:
@@ -203,6 +207,67 @@ def run_history(res, exe, rng, first, matrix_case=None):
                 if got_last != 0:
                     fail("change/in-callback-state", "entry 1016h:%d re-written inside the state change callback: last state of node %d reads %d, reference 0 (no heartbeat since)" % (k + 1, node, got_last)); return
                 res.counters["rewrites_inside_change_callback"] += 1
+            elif op[0] in ("nmtreset", "reinit"):
+                # reset communication / the documented restart on the RAM as it is: every configured entry (time > 0) is a fresh one
+                # afterwards - monitoring starts with the first heartbeat, no events counted, no previous state
+                script.append("%s @%d" % (op[0], now))
+                if op[0] == "nmtreset":
+                    evs = sim.rx(0, bytes([130, nid]))
+                else:
+                    sim.cmd("reinit"); evs = sim.cmd("start")
+                for x in m.e:
+                    x.deadline, x.count, x.last = None, 0, 0
+                err = common(evs)
+                if err is None and (S.cbs(evs, "hbevent") or S.cbs(evs, "hbchange")):
+                    err = "reset / restart signalled %r" % [c[:3] for c in S.cbs(evs, "hbevent") + S.cbs(evs, "hbchange")]
+                if err:
+                    fail("restart", err); return
+                for x in m.e:
+                    if x.active:
+                        got_last = int(sim.ret("hblast %d" % x.node)[0])
+                        if got_last != 0:
+                            fail("restart/state", "after %s the last state of node %d reads %d, reference 0 (no heartbeat since)" % (op[0], x.node, got_last)); return
+                res.counters["resets_and_restarts"] += 1
+            elif op[0] == "evcb":
+                # API calls made from inside the heartbeat event callback: the application re-configures the entry that just reported
+                # the loss (deactivate / deactivate and activate with another time) or resets the communication
+                armed = sorted((x.deadline, i_) for i_, x in enumerate(m.e) if x.active and x.deadline is not None)
+                if not armed or (len(armed) > 1 and armed[1][0] <= armed[0][0]) or armed[0][0] - now > 5000 or armed[0][0] <= now:
+                    continue
+                dl, k = armed[0]
+                x = m.e[k]
+                node = x.node
+                t2 = rng.choice([20, 50, 100])
+                what = op[1]
+                script.append("tick %d @%d, event callback of node %d: %s" % (dl - now, now, node, what))
+                if what == "reset":
+                    sim.cmd("hbeventcb -1")
+                elif what == "zero":
+                    sim.cmd("hbeventcb %d %x" % (k + 1, node << 16))
+                else:
+                    sim.cmd("hbeventcb %d %x %x" % (k + 1, node << 16, (node << 16) | t2))
+                evs = sim.cmd("tick %d" % (dl - now))
+                want = sorted(m.advance(now, sim.tick))
+                got = sorted((int(c[1]), int(c[2])) for c in S.cbs(evs, "hbevent"))
+                if what == "reset":
+                    for y in m.e:
+                        y.deadline, y.count, y.last = None, 0, 0
+                else:
+                    m.write(k, node, 0)
+                    if what == "retime":
+                        m.write(k, node, t2)
+                err = common(evs)
+                if err:
+                    fail("inv", err); return
+                rw = [c[1:] for c in S.cbs(evs, "hbrewrite")]
+                if got != want or (what != "reset" and rw != [[str(k + 1), "0", "0"]]) or (what == "reset" and not S.cbs(evs, "hbreset")):
+                    fail("events/in-callback", "heartbeat events %r (reference %r), action inside the callback: %r" % (got, want, rw)); return
+                # nothing of the old monitoring may be left: the timers in use are those of the entries the model has armed
+                armed_now = sum(1 for y in m.e if y.active and y.deadline is not None)
+                occ = sim.occ()
+                if occ.get("hbc", armed_now) != armed_now:
+                    fail("events/in-callback-timer", "%d heartbeat consumer timers in use after the callback, reference %d" % (occ.get("hbc"), armed_now)); return
+                res.counters["actions_inside_event_callback"] += 1
             elif op[0] == "nohb":
                 # frames that are no heartbeat: 700h + id without the state byte (DLC 0), and 700h itself (there is no node 0) -
                 # they start or restart no monitoring and notify no state
